@@ -2,7 +2,7 @@
 From Coq Require Import ZArith Reals List Lra Lia.
 From Coquelicot Require Import Coquelicot.
 From EG Require Import Num.Num Num.RNum Lib.Vec Model.Types Model.Rigid Model.AlignParams.
-From EG Require Import Proofs.VecR Proofs.AlignParams.
+From EG Require Import Proofs.VecR Proofs.AlignParams Proofs.EulerRoundTrip.
 Import ListNotations.
 Local Open Scope R_scope.
 
@@ -71,3 +71,25 @@ Theorem C08_jacobian3 : forall (rc rcd q cp n t : V3R) (rx ry rz : R),
   is_derive (fun c => res3 rc rcd q cp n t rx ry c) rz (dot3 n (mvec (rm_rdz (@from_euler RNum rx ry rz)) from_rc)).
 Proof. intros. split; [apply jac3_drx | split; [apply jac3_dry | apply jac3_drz]]. Qed.
 Print Assumptions C08_jacobian3.
+
+(* converting a rotation to Euler angles and back is the identity: for every proper rotation matrix whose sin(ry)
+   entry stays outside the gimbal band, and exactly at both poles (inside the band but off the pole the
+   reconstruction is within the band's width; that part is checked per case) *)
+Theorem C08_euler_roundtrip_generic : forall (eps : R) a00 a01 a02 a10 a11 a12 a20 a21 a22,
+  0 < eps -> is_rotation a00 a01 a02 a10 a11 a12 a20 a21 a22 -> eps - 1 <= a02 <= 1 - eps ->
+  rm_m (@from_rotation RNum eps (m9' a00 a01 a02 a10 a11 a12 a20 a21 a22)) = m9' a00 a01 a02 a10 a11 a12 a20 a21 a22.
+Proof. exact wpr_roundtrip_generic. Qed.
+Print Assumptions C08_euler_roundtrip_generic.
+
+Theorem C08_euler_roundtrip_poles : forall (eps : R) a00 a01 a10 a11 a12 a20 a21 a22, 0 < eps < 1 ->
+  (is_rotation a00 a01 1 a10 a11 a12 a20 a21 a22 ->
+   rm_m (@from_rotation RNum eps (m9' a00 a01 1 a10 a11 a12 a20 a21 a22)) = m9' a00 a01 1 a10 a11 a12 a20 a21 a22) /\
+  (is_rotation a00 a01 (-1) a10 a11 a12 a20 a21 a22 ->
+   rm_m (@from_rotation RNum eps (m9' a00 a01 (-1) a10 a11 a12 a20 a21 a22)) = m9' a00 a01 (-1) a10 a11 a12 a20 a21 a22).
+Proof.
+  intros eps a00 a01 a10 a11 a12 a20 a21 a22 He. split; intros H; [apply wpr_roundtrip_pole_pos; [lra | exact H] | apply wpr_roundtrip_pole_neg; [exact He | exact H]].
+Qed.
+Print Assumptions C08_euler_roundtrip_poles.
+
+Example C08_rotation_nonvacuous : is_rotation 0 (-1) 0 1 0 0 0 0 1.
+Proof. unfold is_rotation. repeat split; lra. Qed.
